@@ -1,7 +1,7 @@
 (* Properties_C06.v — C06: adding a frame appends, replaces or extends exactly as documented.
    store_spec is the documented store on plain lists; put is the code's idiom
    (push_back / resize-then-assign with the SIZE_MAX sentinel). *)
-From EZ Require Import Base Types Api Proofs_Store Proofs_Guards Proofs_Updaters Proofs_AnalogCol Float32 Run.
+From EZ Require Import Base Types Api Proofs_Store Proofs_Guards Proofs_Updaters Proofs_AnalogCol Spec_Typed Proofs_InvDeclare Proofs_InvRate Float32 Run.
 Local Open Scope N_scope.
 
 (* the code's store IS the documented one for every index a vector can hold *)
@@ -85,3 +85,23 @@ Proof.
   vm_compute; reflexivity.
 Qed.
 Print Assumptions C06_nonvacuous.
+
+(* A WHOLE RECORDING from the constructor: after point(p) for every p of ps, analog(c) for every c of cs, the two rates, and
+   frame(f) for every f of fs (frames that carry the trimmed declared names in order, q sub-frames each), the data set holds
+   EXACTLY the frames given, in the order given — nothing lost, nothing doubled, nothing reordered (the statement about header and
+   parameters is C05_whole_session_from_the_constructor) *)
+Theorem C06_recording_stores_exactly_the_frames_given : forall f_key f_tosize f_div f_is_zero,
+  (forall x e, f_key x <> Throw e) -> (forall x e, f_tosize x <> Throw e) ->
+  forall ps cs pr ar prate arate tp ta q fs s',
+  cs <> [] -> nlen ps < 2147483648 -> nlen cs < 2147483648 ->
+  p_name pr = nm_RATE -> kind_ok KFlt1 pr = true -> values_as_float pr = Ok (prate :: tp) -> f32_is_zero prate = false ->
+  p_name ar = nm_RATE -> kind_ok KFlt1 ar = true -> values_as_float ar = Ok (arate :: ta) ->
+  f_tosize (f_div 0 prate) = Ok 0 -> f_tosize (f_div arate prate) = Ok q -> 1 <= q -> nlen cs * q < two64 ->
+  Forall (fun f => map pt_name (fr_pts f) = map rtrim ps /\ nlen (fr_subs f) = q /\
+                   (forall sf, In sf (fr_subs f) -> map ch_name sf = map rtrim cs)) fs ->
+  nlen fs < 2147483647 ->
+  run_ops f_key f_tosize f_div f_is_zero
+    (map OPoint ps ++ map OAnalog cs ++ [OParam nm_POINT pr; OParam nm_ANALOG ar] ++ map (fun f => OFrame f None) fs) init = ROk tt s' ->
+  frames s' = fs.
+Proof. exact session_stores_the_frames. Qed.
+Print Assumptions C06_recording_stores_exactly_the_frames_given.
